@@ -282,6 +282,26 @@ fn points(thorough: bool) -> Vec<Point> {
                 }
             }
         }
+        // columns that repeat with a short period (rotations of order 2 and 4, periodic rule of cycle 2, constant
+        // columns) under every assertion set: sequence and periodic assertions whose values are all equal or repeat
+        if w_idx == 1 && n_idx == 1 {
+            for rule in [9usize, 10, 11, 6, 12, 14] {
+                for asel in 0..family::dim_size(5) {
+                    // with 2 and 3 exemptions the last rows are reached by no enforced transition: only the
+                    // assertions constrain their cells
+                    for ex in 0..3usize {
+                        let mut p = base;
+                        p.d[1] = rule;
+                        p.d[5] = asel;
+                        p.d[3] = ex;
+                        if rule == 14 {
+                            p.d[7] = 2;
+                        }
+                        out.push(p);
+                    }
+                }
+            }
+        }
         if !thorough && n_idx == 0 {
             break;
         }
@@ -294,7 +314,7 @@ fn points(thorough: bool) -> Vec<Point> {
 pub fn subs(run: &Arc<Run>) -> Vec<Arc<dyn Sub>> {
     let thorough = run.tier().is_thorough();
     let seed = run.seed();
-    run.rule("reduced family (main width 1-2 plus 0-3 auxiliary columns, n in {8,16}, every rule / exemption count / exempt-row fill / assertion set / aux kind / initial state / extension as a deviation from three small bases, each also combined with a two-column auxiliary segment and with a Lagrange-kernel segment - so that auxiliary constraints outnumber, equal and are outnumbered by the main ones; thorough: every double deviation) x (field, hasher) pairs: EVERY (column, step) cell of the main and of the auxiliary segment corrupted by +1, -1 and a seeded value; the reference validity predicate decides: invalid => if the prover returns a proof, verify must reject; still valid (only exempt transitions, no asserted cell) => must prove and verify; then for the accepted honest proof every asserted value +-1, a different statement encoding, a different transition rule, and every byte of the proof context changed 5 ways must be rejected or fail to parse (except, for a single-segment all-constant trace - whose proof is valid under every challenge - perturbations that leave the statement true); each corrupted cell / perturbation is one non-trivial evaluation, distinct by (pair, point, cell, delta)");
+    run.rule("reduced family (main width 1-2 plus 0-3 auxiliary columns, n in {8,16}, every rule / exemption count / exempt-row fill / assertion set / aux kind / initial state / extension as a deviation from three small bases, each also combined with a two-column auxiliary segment and with a Lagrange-kernel segment - so that auxiliary constraints outnumber, equal and are outnumbered by the main ones; thorough: every double deviation; columns repeating with period 1, 2 and 4 under every assertion set and 1-3 exemptions, so that sequence and periodic assertions with all-equal or repeating values occur) x (field, hasher) pairs: EVERY (column, step) cell of the main and of the auxiliary segment corrupted by +1, -1 and a seeded value; the reference validity predicate decides: invalid => if the prover returns a proof, verify must reject; still valid (only exempt transitions, no asserted cell) => must prove and verify; then for the accepted honest proof every asserted value +-1, a different statement encoding, a different transition rule, and every byte of the proof context changed 5 ways must be rejected or fail to parse (except, for a single-segment all-constant trace - whose proof is valid under every challenge - perturbations that leave the statement true); each corrupted cell / perturbation is one non-trivial evaluation, distinct by (pair, point, cell, delta)");
     run.assume("rejection of an invalid trace is probabilistic with error <= degree/|field| <= 2^-50 for these parameters; an acceptance is reported with its replay data, a rerun with another seed separates coincidence from defect");
     let pts = Arc::new(points(thorough));
     let np = pts.len() as u64;
